@@ -89,6 +89,7 @@ Proof.
   intros Hk Hr. unfold sample_of. rewrite (img_pixels_length im Hr).
   set (p := (img_height im * img_width im)%N).
   eapply N.le_trans; [apply N.mod_le; lia|].
+  assert (Hd : (1 <= sat_mul100 k)%N) by (unfold sat_mul100; lia).
   apply N.div_le_upper_bound; [lia|]. nia.
 Qed.
 
